@@ -182,6 +182,37 @@ func twinMessages(rt *rapid.T, k *xCase) {
 		out = append(out, t)
 	}
 	k.Msgs = out
+	// a one-byte length field holds up to 255: a payload in the upper half of that range
+	// (128..255 bytes) has the top bit set, where a signed intermediate goes wrong
+	root := k.Prog.RootPacket()
+	for try := 0; try < 10; try++ {
+		v := dsl.GenMessage(rt, k.Prog, root, dsl.ValCfg{MaxList: 40 + 20*try, MaxStr: 60 + 10*try}, fmt.Sprintf("upper%d", try))
+		if n, ok := u8TargetSize(k.Prog, root, v); ok && n >= 128 && n <= 255 {
+			k.Msgs = append(k.Msgs, xMsg{Packet: root.Name, Val: v})
+			break
+		} else if !ok {
+			break
+		}
+	}
+}
+
+// u8TargetSize returns the size of the target of the root's one-byte length-of field.
+func u8TargetSize(p *dsl.Program, pk *dsl.Packet, v dsl.Val) (int, bool) {
+	_, lay := ref.Encode(p, pk, v, nil)
+	for _, l := range lay.Leaves {
+		if l.Kind != "len" || dsl.ScalarSize(l.Type) != 1 {
+			continue
+		}
+		f := findField(p, l.Owner, l.Field)
+		if f == nil {
+			continue
+		}
+		parent := l.Path[:len(l.Path)-len(l.Field)-1]
+		if r, ok := lay.Ranges[parent+"."+f.Target]; ok {
+			return r.Len, true
+		}
+	}
+	return 0, false
 }
 
 func TestC04(t *testing.T) {
